@@ -232,6 +232,10 @@ def _build(p):
     return RunLengthRaggedArray.from_ragged_array(ra)
 
 
+def _mixed_concat(p):
+    return p["cls"] == "ragged" and not p.get("vmap") and len(str(p["inp"])) % 2 == 0
+
+
 def _if(p, i, salt=0):
     """an integer index as a Python int or as a numpy integer scalar (chosen from the case, deterministically)"""
     forms = gens.INT_FORMS
@@ -332,6 +336,8 @@ def run_impl(p):
             if f == "ravel":
                 return {"k": "val", "v": _norm(rl.ravel())}
             if f == "concat":
+                if _mixed_concat(p):
+                    return {"k": "val", "v": _norm(np.concatenate([rl, rl * 1.5, rl]))}       # pieces of different element types
                 return {"k": "val", "v": _norm(np.concatenate([rl, rl]))}
             if f in ("np.sum", "np.mean", "np.max"):
                 return {"k": "val", "v": _norm(getattr(np, f[3:])(rl, -1) if ax % 2 else getattr(np, f[3:])(rl, axis=-1))}
@@ -393,6 +399,8 @@ def oracle(p):
                 v = [sum(1 for x in rows if len(x) > j) for j in range(w)]
             elif f == "ravel":
                 v = [y for x in rows for y in x.tolist()]
+            elif f == "concat" and _mixed_concat(p):
+                v = [x.tolist() for x in rows] + [(x * 1.5).tolist() for x in rows] + [x.tolist() for x in rows]
             elif f == "concat":
                 v = [x.tolist() for x in rows] * 2
             elif f == "unary":
@@ -417,6 +425,8 @@ def lean_request(p):
         return None
     if f in ("scalar", "column") and p["uf"] != "subtract":
         return None
+    if f == "concat" and _mixed_concat(p):
+        return None          # (a float piece: implementation vs numpy only)
     if f == "col_int" and p["rsel"]["t"] != "all":
         return None
     if f in ("col_counts", "ravel", "concat", "max", "col_int", "col_range", "argmax") and p["cls"] != "ragged":
